@@ -35,6 +35,11 @@ static volatile int   srv_run    = 0;
 static volatile int   srv_answer = 1;   /* answer queries whose first label does not start with "silent" */
 static volatile int   srv_delay_ms = 0;
 static pthread_t      srv_thr;
+/* arrival log for the staggered scenario: times of datagrams for "silent.*" and count of those for "silent-busy.*" */
+#define MAXARR 16
+static volatile long long probe_at[MAXARR];
+static volatile int       probe_n = 0;
+static volatile int       busy_n  = 0;
 
 static void *server_main(void *arg)
 {
@@ -54,6 +59,15 @@ static void *server_main(void *arg)
     n = recvfrom(srv_fd, buf, sizeof(buf), 0, (struct sockaddr *)&from, &fl);
     if (n < 12) {
       continue;
+    }
+    if (n > 19 && buf[12] == 6 && memcmp(buf + 13, "silent", 6) == 0) {
+      int k = __atomic_load_n(&probe_n, __ATOMIC_SEQ_CST);
+      if (k < MAXARR) {
+        probe_at[k] = now_ms();
+        __atomic_store_n(&probe_n, k + 1, __ATOMIC_SEQ_CST);
+      }
+    } else if (n > 24 && buf[12] == 11 && memcmp(buf + 13, "silent-busy", 11) == 0) {
+      __atomic_fetch_add(&busy_n, 1, __ATOMIC_SEQ_CST);
     }
     /* question name starts at 12: label length then bytes */
     if (!srv_answer || (n > 19 && memcmp(buf + 13, "silent", 6) == 0)) {
@@ -180,6 +194,12 @@ static void timing_cb(void *arg, ares_status_t status, size_t timeouts, const ar
   t->at     = now_ms();
   t->done   = 1;
 }
+static void slow_cb(void *arg, ares_status_t status, size_t timeouts, const ares_dns_record_t *rec)
+{
+  /* an application callback that takes a while (runs on the event thread, under the channel lock) */
+  usleep(60000);
+  timing_cb(arg, status, timeouts, rec);
+}
 static int wait_done(tcb_t *t, long long max_ms)
 {
   long long t0 = now_ms();
@@ -212,6 +232,42 @@ static void do_timing(int nt, char **t)
     ares_query_dnsrec(c, "warm.example", ARES_CLASS_IN, ARES_REC_TYPE_A, timing_cb, &warm, NULL);
     wait_done(&warm, 3000);
     usleep((useconds_t)gap * 1000);
+  }
+  if (!strcmp(mode, "staggered")) {
+    /* an older query is deep in its retry schedule (long current deadline) when a new one arrives on the same,
+       already watched connection: the new query's first retransmission must still happen at its own deadline */
+    long long t1, first = -1, second = -1, lim;
+    int       k;
+    __atomic_store_n(&probe_n, 0, __ATOMIC_SEQ_CST);
+    __atomic_store_n(&busy_n, 0, __ATOMIC_SEQ_CST);
+    ares_query_dnsrec(c, "silent-busy.example", ARES_CLASS_IN, ARES_REC_TYPE_A, timing_cb, &busy, NULL);
+    t1 = now_ms();
+    while (__atomic_load_n(&busy_n, __ATOMIC_SEQ_CST) < (tries < 4 ? tries : 4) && now_ms() - t1 < 8000) {
+      usleep(1000);
+    }
+    k  = __atomic_load_n(&busy_n, __ATOMIC_SEQ_CST);
+    t0 = now_ms();
+    ares_query_dnsrec(c, "silent.example", ARES_CLASS_IN, ARES_REC_TYPE_A, timing_cb, &probe, NULL);
+    lim = (timeout < 250 ? 250 : timeout) + 2500;
+    while (__atomic_load_n(&probe_n, __ATOMIC_SEQ_CST) < 2 && !probe.done && now_ms() - t0 < lim) {
+      usleep(1000);
+    }
+    if (__atomic_load_n(&probe_n, __ATOMIC_SEQ_CST) >= 1) {
+      first = probe_at[0] - t0;
+    }
+    if (__atomic_load_n(&probe_n, __ATOMIC_SEQ_CST) >= 2) {
+      second = probe_at[1] - t0;
+    }
+    printf("timing staggered %s busy_sends=%d first=%lld retx=%lld due=%d done=%d\n", evs, k, first, second,
+           timeout < 250 ? 250 : timeout, probe.done);
+    ares_destroy(c);
+    return;
+  }
+  if (!strcmp(mode, "slowcb")) {
+    /* two deadlines close together; the callback of the first takes longer than the distance between them, so the
+       second has already expired when the event thread computes its next sleep */
+    ares_query_dnsrec(c, "silent-a.example", ARES_CLASS_IN, ARES_REC_TYPE_A, slow_cb, &busy, NULL);
+    usleep(20000);
   }
   if (!strcmp(mode, "busy")) {
     /* another query is outstanding on the connection, with a long way to its own deadline */
@@ -388,12 +444,14 @@ static void do_stress(int nt, char **t)
   }
   /* watchdog: client threads must finish (no lock-order deadlock) */
   t0 = now_ms();
-  for (i = 0; i < threads; i++) {
+  {
     struct timespec ts;
     clock_gettime(CLOCK_REALTIME, &ts);
-    ts.tv_sec += 60;
-    if (pthread_timedjoin_np(th[i], NULL, &ts) != 0) {
-      deadlock = 1;
+    ts.tv_sec += 60; /* one deadline for all joins */
+    for (i = 0; i < threads; i++) {
+      if (pthread_timedjoin_np(th[i], NULL, &ts) != 0) {
+        deadlock = 1;
+      }
     }
   }
   if (!deadlock) {
